@@ -300,4 +300,6 @@ def run(chk):
     chk.floor('R17.5', 1); chk.floor('R17.7', 16)
     twin.finish(floor=6)
     chk.floor('R17.1', 26); chk.floor('R17.2', 17); chk.floor('R17.3', 5); chk.floor('R17.4', 134)
+    from .common import precision_lint
+    precision_lint(chk, repo, 'R17.8', ['TidalPy/utilities/conversions/*.pyx'], floor_funcs=3)
     chk.assume('all inputs positive; cube and square roots are the real positive roots')
